@@ -219,6 +219,7 @@ def rules(chk, db, prefix='', only=None):
         init0 = posf.get('init') is not None and ir.const_of(ir.strip_all_casts(posf['init']) if posf['init'].get('k') != 'ilist' else
                                                              (posf['init']['el'][0] if posf['init']['el'] else {'cv': '0'})) == 0
         ctor_ok = None
+        narrow = []
         for m in methods:
             if m.get('ctor') and len(m['params']) == 2:
                 inits = {i.get('field'): i for i in m.get('inits', [])}
@@ -233,11 +234,25 @@ def rules(chk, db, prefix='', only=None):
                 pinit = inits.get(roles.pos, {}).get('e')
                 if pinit is not None and inits.get(roles.pos, {}).get('written'):
                     init0 = ir.const_of(ir.strip_all_casts(pinit)) == 0
+                # the frame enforces the DECLARED size: the limit / position fields are at least as wide as the constructor's size
+                # parameter and the limit initialiser does not narrow it (a 32-bit budget accepts a declared size of 2^32 + k as k)
+                from .. import termx as _tx
+                bits = lambda t: _tx.BITS.get((t or '').replace('const ', '').strip())
+                if ps and bits(ps[0]['t']):
+                    want_bits = bits(ps[0]['t'])
+                    for fname in (roles.limit, roles.pos):
+                        ft = [f for f in r['fields'] if f['n'] == fname][0].get('t')
+                        if bits(ft) and bits(ft) < want_bits:
+                            narrow.append('field `%s` is %s, narrower than the size parameter (%s)' % (fname, ft, ps[0]['t']))
+                    for y in ir.walk(a) if a is not None else ():
+                        if y.get('k') in ('icast', 'cast') and bits(y.get('to')) and bits(y.get('to')) < want_bits and \
+                                ir.const_of(ir.strip_all_casts(y)) is None:
+                            narrow.append('the limit initialiser converts the size to %s' % y.get('to'))
         if (r['file'], r['loc']['l']) not in done_patterns:
             missing = EXPECTED_PRIMS[kind] - names_by_rect[methods[0]['rect']]
-            chk.decide(init0 and ctor_ok is True and not missing, R('I'), '%s:%d' % (r['file'], r['loc']['l']),
-                       '%s: position `%s` starts at 0: %s; constructor binds limit `%s` and wrapped object `%s`: %s; missing primitives: %s'
-                       % (methods[0]['rect'], roles.pos, init0, roles.limit, roles.delegate, ctor_ok, sorted(missing) or 'none'),
+            chk.decide(init0 and ctor_ok is True and not missing and not narrow, R('I'), '%s:%d' % (r['file'], r['loc']['l']),
+                       '%s: position `%s` starts at 0: %s; constructor binds limit `%s` and wrapped object `%s`: %s; missing primitives: %s; size kept at full width: %s'
+                       % (methods[0]['rect'], roles.pos, init0, roles.limit, roles.delegate, ctor_ok, sorted(missing) or 'none', narrow[0] if narrow else 'yes'),
                        function=rec)
         done_patterns.add((r['file'], r['loc']['l']))
         # the budget arithmetic is unsigned: a conversion of the position / limit (or of limit - pos) to a SIGNED type turns a
